@@ -54,7 +54,7 @@ def run(tier, seed):
         np = len(cfg["pageRows"])
         faults = [(c, p, w, k) for c in ("id", "s", "l") for p in ([-1] if c == "s" else []) + list(range(np))
                   for w in (0, 1, 2) for k in (0, 1)]
-        for c, p, w, k in (rnd.sample(faults, 3) if quick else rnd.sample(faults, min(len(faults), 12))):
+        for c, p, w, k in (rnd.sample(faults, 3) if quick else faults):   # thorough: every fault of every history
             scenarios.append({"id": len(scenarios) + 1, "cfg": cfg, "ops": ops,
                               "fault": {"col": c, "page": p, "where": w, "kind": k}})
     vf.log(f"[C13] X: {x.distinct}+{xr.distinct} states; scenarios {len(scenarios)}")
